@@ -294,6 +294,9 @@ func install(w *workspace, j *job) error {
 	if err != nil {
 		return err
 	}
+	if os.Getenv("C15_KEEP") != "" {
+		ioutil.WriteFile(filepath.Join(w.dir, j.name+".req"), j.req, 0644)
+	}
 	return ioutil.WriteFile(filepath.Join(w.dir, j.name+".desc.json"), db, 0644)
 }
 
@@ -500,7 +503,7 @@ func maxInt(a, b int) int {
 // ---------------------------------------------------------------------------
 
 func synthOptsFor(idx uint64) synthOpts {
-	return synthOpts{Structs: 30, MaxFields: 9, TwoFiles: idx%3 == 1, Systematic: idx%2 == 0}
+	return synthOpts{Structs: 22, MaxFields: 9, TwoFiles: idx%3 == 1, Systematic: idx%2 == 0}
 }
 
 func prepareSynth(rec *common.Recorder, cfg *common.Config, w *workspace, i uint64) *job {
